@@ -76,7 +76,8 @@ Record sys := mkSys { buf : ring; condn : cond }.
 Inductive op :=
 | RecordSuccess            (* Registration.updateNodePoolRegistrationHealth *)
 | RecordFailure            (* Liveness.updateNodePoolRegistrationHealth *)
-| PoolChanged              (* generation bump + registrationhealth reconcile: Unknown + reset *)
+| PoolChanged              (* NodePool generation bump + registrationhealth reconcile: Unknown + reset *)
+| ClassChanged             (* NodeClass generation bump + registrationhealth reconcile: Unknown + reset *)
 | Crash                    (* process restart: the in-memory buffer is lost, the API condition stays *)
 | Reconcile.               (* registrationhealth reconcile without a pool change: re-hydration only *)
 
@@ -100,7 +101,7 @@ Definition step (s : sys) (o : op) : sys :=
   | RecordFailure =>
       let c := match tstatus (dry_run (buf s) false) with Unhealthy => CFalse | _ => condn s end in
       mkSys (insert (buf s) false) c
-  | PoolChanged => mkSys (set_status (buf s) Unknown) CUnknown
+  | PoolChanged | ClassChanged => mkSys (set_status (buf s) Unknown) CUnknown
   | Crash => mkSys empty (condn s)
   | Reconcile => rehydrate s
   end.
@@ -115,7 +116,7 @@ Fixpoint hydrated_hist (pending : bool) (ops : list op) : bool :=
   | [] => true
   | Crash :: t => hydrated_hist true t
   | Reconcile :: t => hydrated_hist false t
-  | PoolChanged :: t => hydrated_hist false t
+  | (PoolChanged | ClassChanged) :: t => hydrated_hist false t
   | (RecordSuccess | RecordFailure) :: t => negb pending && hydrated_hist pending t
   end.
 
@@ -169,7 +170,7 @@ Definition sstep (a : list bool * cond) (o : op) : list bool * cond :=
       let w' := lastn cap (w ++ [true]) in (w', if failures_fill_half w' then c else CTrue)
   | RecordFailure =>
       let w' := lastn cap (w ++ [false]) in (w', if failures_fill_half w' then CFalse else c)
-  | PoolChanged => ([], CUnknown)
+  | PoolChanged | ClassChanged => ([], CUnknown)
   | Crash => ([], c)
   | Reconcile =>
       match w, c with
